@@ -107,6 +107,10 @@ def user_view(cont, model, cfg, ctx):
         exp = p in model.tree
         if inn != exp or got != exp:
             return {"kind": "membership", "what": f"'{p}' in container = {inn}, get = {got}, plain tree has it: {exp}"}
+    refnav = contexp.nav_view(model.tree)
+    if uv["nav"] != refnav:
+        which = "parent listings" if uv["nav"][0] != refnav[0] else "early-exit visits"
+        return {"kind": "navigation", "what": f"{which} differ from the plain tree: container {[x for x in uv['nav'][0] if x not in refnav[0]][:3] or uv['nav'][1]} plain {[x for x in refnav[0] if x not in uv['nav'][0]][:3] or refnav[1]}"}
     return None
 
 
@@ -252,8 +256,8 @@ def unsupported_attrs(cont, model, cfg, ctx):
     return None
 
 
-def make_cfg(seed, max_dev):
-    cfg = c06.make_cfg("c08", seed, max_dev=max_dev, checks=("user_view", "reserved_paths", "link_values", "unsupported_attrs"), schemas=["vt.aa", "vt.bb"])
+def make_cfg(seed, max_dev, name="c08"):
+    cfg = c06.make_cfg(name, seed, max_dev=max_dev, checks=("user_view", "reserved_paths", "link_values", "unsupported_attrs"), schemas=["vt.aa", "vt.bb"], names=c06.names_for(name))
     G, GD, E, H, GF = cfg["paths"]
     cfg["ops"] = cfg["ops"][:-2] + [["sa", G, "k"], ["sa", GD, "k"], ["sa", "/", "k"], ["da", "/", "k"], ["mkgrp", H], ["mkds", GF], ["R"], ["B"]]
     return cfg
@@ -266,7 +270,14 @@ def run(tier, seed):
     budget = 170 if q else 2400
     t0 = time.time()
     fam, violations, samples = {}, [], []
-    with parallel.make_pool("mc.contexp", {"cfgs": {"c08": cfg}, "envs": ["old"], "check_modules": ["mc.props.c08"]}) as pool:
+    cfg_odd = make_cfg(seed, 1, name="c08odd")
+    with parallel.make_pool("mc.contexp", {"cfgs": {"c08": cfg, "c08odd": cfg_odd}, "envs": ["old"], "check_modules": ["mc.props.c08"]}) as pool:
+        for drv in ("h5", "ih5"):
+            # the same alphabet over unusual but legal node names (reserved prefix as infix / suffix, '=')
+            r = contexp.bfs(pool, "c08odd", cfg_odd, drv, 2 if q else 3, budget_s=budget, t0=t0)
+            violations += r.pop("violations")
+            r.pop("samples")
+            fam[drv + "-odd-names"] = r
         for drv in ("h5", "ih5"):
             r = contexp.bfs(pool, "c08", cfg, drv, depth[drv], budget_s=budget, t0=t0)
             violations += r.pop("violations")
@@ -293,7 +304,7 @@ def run(tier, seed):
 
 def replay(data):
     c = data["config"]
-    cfg = make_cfg(env.seed(), 9)
+    cfg = make_cfg(env.seed(), 9, name=c.get("cfg", "c08"))
     cfg["checks"] = c["checks"]
-    contexp.worker_init({"c08": cfg}, envs=["old"], check_modules=["mc.props.c08"])
+    contexp.worker_init({cfg["name"]: cfg}, envs=["old"], check_modules=["mc.props.c08"])
     return contexp.check_history((cfg, c["driver"], data["history"]))
